@@ -2251,7 +2251,8 @@ breaker('C17', 'copy-skips-dataless-records', 'C17.R13', BSPY, 'copy',
 twin('C17', 'copy-verbose-branch-for-dataless', BSPY, 'copy',
      '''                oid = r.oid
                 if verbose:
-                    print(oid_repr(oid), r.version, len(r.data))''',
+                    # (the record of an un-creation has no data)
+                    print(oid_repr(oid), r.version, len(r.data or b''))''',
      '''                oid = r.oid
                 if verbose and r.data is None:
                     print(oid_repr(oid), r.version, 'no data')
@@ -2410,17 +2411,29 @@ breaker('C02', 'abort-flushes-pool-before-truncate', 'C05.R2', FSPY,
 # ---- F52 .. F56 -------------------------------------------------------------
 breaker('C12', 'store-objects-pops-unconditionally', 'C12.R11', CONNPY,
         'Connection._store_objects_of',
-        '''                    if not new:
-                        self._modified.pop()  # not modified''',
-        '''                    self._modified.pop()  # not modified''')
+        '''                    assert serial is not None  # See _uncommitted
+                    if new:''',
+        '''                    assert serial is not None  # See _uncommitted
+                    self._modified.pop()
+                    if new:''')
 twin('C12', 'store-objects-pop-flag-renamed', CONNPY,
      'Connection._store_objects_of',
-     '''                    if not new:
-                        self._modified.pop()  # not modified''',
      '''                    if new:
-                        pass
-                    else:
-                        self._modified.pop()  # not modified''')
+                        # A new object always gets a record.  (A blob
+                        # that was new in an aborted transaction and whose
+                        # data a savepoint had taken: the data went with
+                        # that transaction.)
+                        raise ZODB.interfaces.BlobError(
+                            "A new blob has lost its data: %s" %
+                            oid_repr(oid))
+                    self._modified.pop()  # not modified
+                    continue''',
+     '''                    if not new:
+                        self._modified.pop()  # not modified
+                        continue
+                    raise ZODB.interfaces.BlobError(
+                        "A new blob has lost its data: %s" %
+                        oid_repr(oid))''')
 
 breaker('C09', 'time-travel-open-takes-index', 'C09.R10', FSPY,
         'FileStorage.__init__',
@@ -3045,3 +3058,179 @@ twin('C16', 'demo-begin-changes-last-in-a-local', DSPY,
      '''                if last > self.changes.lastTransaction():''',
      '''                mine = self.changes.lastTransaction()
                 if mine < last:''')
+
+# ---- round 10
+breaker('C13', 'blobwrapper-undo-skips-a-blob-it-has-a-file-for', 'C13.R18',
+        BLOBPY, 'BlobStorage.undo',
+        '''                self.dirty_oids.append((oid, undo_serial))
+                with open(orig_fn, "rb") as orig:''',
+        '''                if (oid, undo_serial) in self.dirty_oids:
+                    continue
+                self.dirty_oids.append((oid, undo_serial))
+                with open(orig_fn, "rb") as orig:''')
+breaker('C13', 'new-blob-without-data-passed-over', 'C13.R19', CONNPY,
+        'Connection._store_objects_of',
+        '''                    if new:
+                        # A new object always gets a record.  (A blob
+                        # that was new in an aborted transaction and whose
+                        # data a savepoint had taken: the data went with
+                        # that transaction.)
+                        raise ZODB.interfaces.BlobError(
+                            "A new blob has lost its data: %s" %
+                            oid_repr(oid))
+                    self._modified.pop()  # not modified
+                    continue''',
+        '''                    if not new:
+                        self._modified.pop()  # not modified
+                    continue''')
+breaker('C18', 'find-files-compares-whole-name', 'C18.R12', RZPY,
+        'find_files',
+        '''        if root <= when:''', '''        if fname <= when:''')
+twin('C18', 'find-files-date-on-the-left', RZPY, 'find_files',
+     '''        if root <= when:''', '''        if when >= root:''')
+breaker('C18', 'verifying-recover-writes-everything-listed', 'C18.R13', RZPY,
+        'do_recover',
+        '''            for repofile in repofiles:
+                reposz, reposum = concat([repofile], outfp)
+                expected_truth = truth_dict[repofile]''',
+        '''            for repofile, expected_truth in truth_dict.items():
+                reposz, reposum = concat([repofile], outfp)''')
+breaker('C09', 'index-without-id-rejected', 'C09.R13', FSPY,
+        'FileStorage._restore_index',
+        '''        saved_tid = info.get('tid')
+        if saved_tid is not None and saved_tid != tid:''',
+        '''        if info.get('tid') != tid:''')
+twin('C09', 'index-id-test-nested', FSPY, 'FileStorage._restore_index',
+     '''        saved_tid = info.get('tid')
+        if saved_tid is not None and saved_tid != tid:''',
+     '''        saved_tid = info.get('tid')
+        if saved_tid is None:
+            pass
+        elif saved_tid != tid:''')
+breaker('C14', 'newargs-branch-tests-truth-of-the-database-name', 'C14.R14',
+        SERPY, 'ObjectWriter.persistent_id',
+        '''            if database_name is not None:
+                return ['n', (database_name, oid)]''',
+        '''            if database_name:
+                return ['n', (database_name, oid)]''')
+breaker('C14', 'reset-cache-gives-the-reader-the-old-cache', 'C14.R15', CONNPY,
+        'Connection._resetCache',
+        '''        self._cache = cache = PickleCache(self, cache_size, cache_size_bytes)
+        if getattr(self, '_reader', None) is not None:
+            self._reader._cache = cache''',
+        '''        self._reader = ObjectReader(self, self._cache, self._db.classFactory)
+        self._cache = PickleCache(self, cache_size, cache_size_bytes)''')
+twin('C14', 'reset-cache-rebinds-the-reader-from-the-attribute', CONNPY,
+     'Connection._resetCache',
+     '''        self._cache = cache = PickleCache(self, cache_size, cache_size_bytes)
+        if getattr(self, '_reader', None) is not None:
+            self._reader._cache = cache''',
+     '''        self._cache = PickleCache(self, cache_size, cache_size_bytes)
+        if getattr(self, '_reader', None) is not None:
+            self._reader._cache = self._cache''')
+breaker('C17', 'data-find-follows-a-zero-backpointer', 'C17.R18', FSPY,
+        'FileStorage._data_find',
+        '''            # This is also a backpointer,  Gotta trust it.
+            return data_pos''',
+        '''            if self._loadBack_impl(oid, data_hdr.back, False)[0] != data:
+                return 0
+            return data_pos''')
+twin('C17', 'data-find-follows-a-nonzero-backpointer', FSPY,
+     'FileStorage._data_find',
+     '''            # This is also a backpointer,  Gotta trust it.
+            return data_pos''',
+     '''            if data_hdr.back and self._loadBack_impl(
+                    oid, data_hdr.back, False)[0] != data:
+                return 0
+            return data_pos''')
+breaker('C17', 'verbose-copy-takes-len-of-every-record', 'C17.R19', BSPY,
+        'copy',
+        '''len(r.data or b'')''', '''len(r.data)''')
+breaker('C07', 'pack-works-off-a-stale-removal-list-first', 'C07.R12', FSPY,
+        'FileStorage.pack',
+        '''            pack_result = None
+            try:
+                pack_result = self.packer(self, referencesf, stop, gc)''',
+        '''            if self.blob_dir and os.path.exists(
+                    os.path.join(self.blob_dir, '.removed')):
+                self._remove_blob_files_tagged_for_removal_during_pack()
+            pack_result = None
+            try:
+                pack_result = self.packer(self, referencesf, stop, gc)''')
+breaker('C07', 'mapping-gc-sweeps-from-the-root-alone', 'C07.R7', MSPY,
+        'MappingStorage.pack',
+        '''            for oid, tid_data in self._data.items():
+                if tid_data.maxKey() > stop:
+                    to_copy.add(oid)
+            while to_copy:''', '''            while to_copy:''')
+breaker('C16', 'demo-store-skips-the-lookup-for-new-objects', 'C16.R3', DSPY,
+        'DemoStorage.store',
+        '''        try:
+            old = load_current(self, oid)[1]
+        except ZODB.POSException.POSKeyError:
+            old = serial
+''', '''        if serial == ZODB.utils.z64:
+            old = serial
+        else:
+            try:
+                old = load_current(self, oid)[1]
+            except ZODB.POSException.POSKeyError:
+                old = serial
+''')
+breaker('C10', 'demo-begin-empties-the-resolved-list-while-waiting', 'C20.R7',
+        DSPY, 'DemoStorage.tpc_begin',
+        '''                    "Duplicate tpc_begin calls for same transaction")
+
+        self._commit_lock.acquire()
+''', '''                    "Duplicate tpc_begin calls for same transaction")
+            del self._resolved[:]
+
+        self._commit_lock.acquire()
+''')
+breaker('C19', 'maxkey-in-bucket-test-strict', 'C19.R9', FSIPY,
+        'fsIndex.maxKey',
+        '''        else:
+            try:
+                biggest_suffix = tree.maxKey(key[6:])
+            except ValueError:  # 'empty tree' (no suffix <= arg)
+                if biggest_prefix == b'\\0' * 6:
+                    raise  # there is no smaller prefix
+                next_prefix = prefix_minus_one(biggest_prefix)
+                biggest_prefix = self._data.maxKey(next_prefix)
+                tree = self._data[biggest_prefix]
+                assert tree
+                biggest_suffix = tree.maxKey()
+''', '''        elif key[6:] > tree.minKey():
+            biggest_suffix = tree.maxKey(key[6:])
+        else:
+            if biggest_prefix == b'\\0' * 6:
+                raise ValueError('empty tree')
+            next_prefix = prefix_minus_one(biggest_prefix)
+            biggest_prefix = self._data.maxKey(next_prefix)
+            tree = self._data[biggest_prefix]
+            assert tree
+            biggest_suffix = tree.maxKey()
+''')
+twin('C19', 'maxkey-in-bucket-test-non-strict', FSIPY, 'fsIndex.maxKey',
+     '''        else:
+            try:
+                biggest_suffix = tree.maxKey(key[6:])
+            except ValueError:  # 'empty tree' (no suffix <= arg)
+                if biggest_prefix == b'\\0' * 6:
+                    raise  # there is no smaller prefix
+                next_prefix = prefix_minus_one(biggest_prefix)
+                biggest_prefix = self._data.maxKey(next_prefix)
+                tree = self._data[biggest_prefix]
+                assert tree
+                biggest_suffix = tree.maxKey()
+''', '''        elif key[6:] >= tree.minKey():
+            biggest_suffix = tree.maxKey(key[6:])
+        else:
+            if biggest_prefix == b'\\0' * 6:
+                raise ValueError('empty tree')
+            next_prefix = prefix_minus_one(biggest_prefix)
+            biggest_prefix = self._data.maxKey(next_prefix)
+            tree = self._data[biggest_prefix]
+            assert tree
+            biggest_suffix = tree.maxKey()
+''')
